@@ -1,7 +1,7 @@
 """C04 — results depend only on the input text, not on how it is delivered or split (partial).
 The three run entry points perform the same call sequence on exactly the delivered text; the accumulate buffer is a text view
 with lazy clear.  Persistence of engine definitions across calls (read_input / tidy / saver state) is NOT decided."""
-import time
+import time, re
 from vf import core
 from vf.core import Undecided, FAILED, DISCHARGED, UNDECIDED
 from vf.astvc import ast as A, terms as tm, unit as U, backends as B, stl as STLM
@@ -210,6 +210,91 @@ def unit_do_run_tail(twin=False):
     return r
 
 
+def _engine_chain(e):
+    """names of the member chain of an expression, outermost first, e.g. this->PhreeqcPtr->dump_info.SetAll -> [SetAll, dump_info, PhreeqcPtr]"""
+    out = []
+    while isinstance(e, dict):
+        k = e.get("kind")
+        if k == "MemberExpr":
+            out.append(e.get("name")); e = (e.get("inner") or [None])[0]
+        elif k in ("ImplicitCastExpr", "ParenExpr", "CXXStaticCastExpr", "CStyleCastExpr", "MaterializeTemporaryExpr", "ExprWithCleanups", "CXXBindTemporaryExpr"):
+            e = (e.get("inner") or [None])[0]
+        elif k == "ArraySubscriptExpr":
+            e = e["inner"][0]
+        elif k == "UnaryOperator" and e.get("opcode") in ("*", "&"):
+            e = e["inner"][0]
+        else:
+            break
+    return out
+
+
+READ_ONLY = re.compile(r"^(get|Get|size$|empty$|c_str$|begin$|end$|find$|str$|count$)")
+
+
+def unit_do_run_boundary_frame(twin=False):
+    """The statements IPhreeqc::do_run executes once per CALL (everything outside its simulation loop) are what a cut of the input adds
+    to a run.  For the outcome not to depend on the cut they may not reset or modify engine state: of the engine (PhreeqcPtr->...) they
+    write first_read_input only, install the input stream on phrq_io, and call do_status; every other engine member is at most read."""
+    fn = A.find_function(IPQ, "IPhreeqc::do_run")
+    r = U.new_unit("C04.do_run.call_boundary_writes_no_engine_state", IPQ, "IPhreeqc::do_run", fn)
+    body = A.body_of(fn).get("inner", [])
+    loops = [x for x in body if x.get("kind") == "ForStmt"]
+    if len(loops) != 1:
+        raise Undecided("do_run: expected exactly one top-level simulation loop, found %d" % len(loops))
+    allowed_w = {"first_read_input"} if not twin else set()
+    allowed_calls = {"do_status"}
+    allowed_obj = {"phrq_io"}
+    touched = []
+    for st in body:
+        if st is loops[0]:
+            continue
+        for x in A.walk(st):
+            k = x.get("kind"); tgt = None; how = None
+            if k == "BinaryOperator" and x.get("opcode") == "=" or k == "CompoundAssignOperator":
+                tgt, how = x["inner"][0], "assigned"
+            elif k == "UnaryOperator" and x.get("opcode") in ("++", "--"):
+                tgt, how = x["inner"][0], "stepped"
+            elif k == "CXXMemberCallExpr":
+                tgt, how = x["inner"][0], "call"
+            elif k == "CXXOperatorCallExpr" and len(x.get("inner", [])) >= 2:
+                op = [y.get("name") or "" for y in A.walk(x["inner"][0]) if y.get("kind") == "DeclRefExpr"]
+                nm = (x["inner"][0].get("inner") or [{}])[0].get("referencedDecl", {}).get("name", "") if x["inner"][0].get("kind") == "ImplicitCastExpr" else ""
+                if re.search(r"operator(=|\+=|-=|\*=|/=|\+\+|--|<<=|>>=)$", nm):
+                    tgt, how = x["inner"][1], "assigned"
+            if tgt is None:
+                continue
+            ch = _engine_chain(tgt)
+            if "PhreeqcPtr" not in ch:
+                continue
+            kx = ch.index("PhreeqcPtr")
+            if kx == 0:
+                touched.append(("PhreeqcPtr", how)); continue
+            member = ch[kx - 1]
+            if how == "call":
+                if kx == 1:
+                    touched.append((member + "()", "engine call"))
+                elif not READ_ONLY.match(ch[0]):
+                    touched.append((member, "." + ch[0] + "()"))
+            else:
+                touched.append((member, how))
+    seen_w = set()
+    for m, how in touched:
+        if how == "engine call":
+            ok = m[:-2] in allowed_calls
+        elif how.startswith("."):
+            ok = m in allowed_obj
+        else:
+            ok = m in allowed_w; seen_w.add(m)
+        r.add("outside_the_simulation_loop.%s.%s" % (m, how.strip(".()").replace(" ", "_")), DISCHARGED if ok else FAILED, "ast-scan", 0,
+              "engine member %s is %s once per call" % (m, how), kind="frame")
+    r.add("reach.engine_touches_found", DISCHARGED if len(touched) >= 3 else UNDECIDED, "ast-scan", 0, repr(touched)[:200], kind="vacuity")
+    r.kind = "structural"
+    r.assumptions += ["syntactic frame: writes through aliases / callbacks (pfn_pre, pfn_post are the caller's code) are not seen",
+                      "methods named get*/Get*/size/empty/c_str/begin/end/find/str/count are read-only",
+                      "do_status() only reports progress; phrq_io->push_istream installs the stream of this call"]
+    return r
+
+
 def units(tier):
     us = []
     def wrap(uid, f, *a):
@@ -224,6 +309,7 @@ def units(tier):
     wrap("C04.accumulate.AccumulateLine", unit_accumulate)
     wrap("C04.check_database.per_call_reset_frame", unit_check_database)
     wrap("C04.do_run.component_cache_invalidated", unit_do_run_tail)
+    wrap("C04.do_run.call_boundary_writes_no_engine_state", unit_do_run_boundary_frame)
     from props import c04_tidy as TD
     wrap("C04.tidy_model.rebinds_after_model_change", TD.unit_tidy_model)
     wrap("C04.engine.no_decision_keyed_on_the_per_call_simulation_number", TD.unit_no_call_local_keys)
